@@ -59,6 +59,8 @@ CHAINS = {
     "translate": (' transform="translate(6,-4)"', ""),
     "rotscale": (' transform="rotate(20) scale(1.2,.8)"', ""),
     "groupmatrix": (' transform="matrix(.9,.2,-.1,1.1,3,2)"', "translate(5,5)"),
+    "mirror": (' transform="matrix(-1,0,0,1,100,0)"', ""),  # axis-aligned but orientation reversing
+    "flipscale": (' transform="scale(1.1,-.9) translate(0,-95)"', ""),
 }
 
 
@@ -127,6 +129,43 @@ def document(kind, coords, units, gt, spread, href, focus, shape, chain):
     return f'<svg {NS} viewBox="0 0 110 95"><defs>{defs}</defs>{body}{extra}</svg>'
 
 
+SHARED_SHAPES = {
+    "rect+circle": ('<rect x="12" y="15" width="38" height="30" fill="url(#g)"{a}/>', '<circle cx="72" cy="58" r="20" fill="url(#g)"{b}/>'),
+    "rect+rect": ('<rect x="12" y="15" width="38" height="30" fill="url(#g)"{a}/>', '<rect x="55" y="45" width="24" height="36" fill="url(#g)"{b}/>'),
+    "same-geometry": ('<rect x="30" y="25" width="34" height="30" fill="url(#g)"{a}/>', '<rect x="30" y="25" width="34" height="30" fill="url(#g)" fill-opacity=".5"{b}/>'),
+}
+SHARED_T = {
+    "none": "",
+    "translate": ' transform="translate(7,-5)"',
+    "scale": ' transform="scale(1.15,.85)"',
+    "rotate": ' transform="rotate(12 50 50)"',
+    "matrix": ' transform="matrix(.9,.15,-.1,1.05,4,1)"',
+    "mirror": ' transform="matrix(-1,0,0,1,104,0)"',
+}
+
+
+def shared_document(kind, coords, units, gt, shapes, ta, tb, wrap):
+    """ONE gradient painted on two shapes whose transform chains differ: each shape must keep its own colours."""
+    tag = "linearGradient" if kind == "linear" else "radialGradient"
+    attrs = COORDS[(kind, coords, units)]
+    if units == "userSpaceOnUse":
+        attrs += ' gradientUnits="userSpaceOnUse"'
+    g = GT[gt][units]
+    if g:
+        attrs += f' gradientTransform="{g}"'
+    a, b = SHARED_SHAPES[shapes]
+    a, b = a.format(a=SHARED_T[ta]), b.format(b=SHARED_T[tb])
+    if wrap == "group-b":
+        b = f'<g transform="translate(-6,4)">{b}</g>'
+    elif wrap == "group-both":
+        a, b = f'<g transform="matrix(1.05,0,.1,.95,2,3)">{a}{b}</g>', ""
+    elif wrap == "use-b":
+        # the second painted shape is a <use> copy of the first
+        b = f'<use xlink:href="#sa" x="30" y="28"{SHARED_T[tb]}/>'
+        a = a.replace("<rect ", '<rect id="sa" ', 1)
+    return f'<svg {NS} viewBox="0 0 110 95"><defs><{tag} id="g"{attrs}>{STOPS}</{tag}></defs>{a}{b}</svg>'
+
+
 def judge(doc, tier, seed):
     o, out = RC.convert(doc)
     if o != "returned":
@@ -145,11 +184,25 @@ def judge(doc, tier, seed):
     if len(gl_s) < 1 or len(gl_s) != len(gl_o):
         return o, f"gradient-filled leaves: {len(gl_s)} in the source, {len(gl_o)} in the output", "render", None, stats, out
     if len(gl_s) > 1:
-        # further gradient-filled shapes (a template used directly): whole-document comparison
+        # further gradient-filled shapes (a template used directly, a shared gradient): whole-document comparison
         r = scene.compare(doc, out, G=G, phase=seed % 8)
         if not r["ok"]:
             return o, r["why"], "render", None, stats, out
-    ls, lo = gl_s[0], gl_o[0]
+    worst = None
+    for ls, lo in zip(gl_s, gl_o):
+        res = _judge_leaf(o, out, ls, lo, cs, co, pts, dict(stats))
+        if res[1]:
+            return res
+        if worst is None or (res[3] or 0) > (worst[3] or 0):
+            worst = res
+    o, why, kind, span, stats, out = worst
+    bad = R4.validate(out, require_stops=True)
+    if bad:
+        return o, "output gradient not self-contained / grammar: " + "; ".join(bad)[:300], "grammar", span, stats, out
+    return o, None, None, span, stats, out
+
+
+def _judge_leaf(o, out, ls, lo, cs, co, pts, stats):
     inside = (cs[ls.index] == 1) & (co[lo.index] == 1)
     idx = np.nonzero(inside)[0]
     stats["compared"] = int(len(idx))
@@ -185,13 +238,12 @@ def judge(doc, tier, seed):
             why = f"colour differs at ({P[k][0]:.2f},{P[k][1]:.2f}): source {np.round(rgb_s[k]).tolist()} a={a_s[k]:.3f}, output {np.round(rgb_o[k]).tolist()} a={a_o[k]:.3f}"
     if why:
         return o, why, "render", span, stats, out
-    bad = R4.validate(out, require_stops=True)
-    if bad:
-        return o, "output gradient not self-contained / grammar: " + "; ".join(bad)[:300], "grammar", span, stats, out
     return o, None, None, span, stats, out
 
 
 def evaluate(case):
+    if case.get("fam") == "s":
+        return evaluate_shared(case)
     doc = document(*case["k"])
     o, why, kind, span, st, out = judge(doc, case["tier"], case["seed"])
     nt = doc if (span is not None and span >= 0.3 and st.get("compared", 0) >= 30) else None
@@ -204,13 +256,36 @@ def evaluate(case):
     return rec
 
 
+def evaluate_shared(case):
+    k = case["k"]
+    doc = shared_document(*k)
+    o, why, kind, span, st, out = judge(doc, case["tier"], case["seed"])
+    nt = doc if (span is not None and span >= 0.2 and st.get("compared", 0) >= 20) else None
+    rec = {"out": "shared/" + o, "nt": nt, "viol": [], "cnt": {"compared_points": st.get("compared", 0)}}
+    if why:
+        rec["viol"].append({"sig": {"kind": kind, "fam": "shared", "gkind": k[0], "units": k[2], "wrap": k[7]}, "case": {"fam": "s", "k": k, "doc": doc}, "detail": {"why": why, "output": out[:2500], "stats": st}})
+    return rec
+
+
+def shared_cases(tier):
+    ts = list(SHARED_T)
+    for kind, units, gt, shapes, wrap in itertools.product(["linear", "radial"], ["objectBoundingBox", "userSpaceOnUse"], ["none", "rotate", "matrix"] if tier == "quick" else list(GT), list(SHARED_SHAPES), ["none", "group-b", "group-both", "use-b"]):
+        for ta, tb in itertools.product(ts, ts):
+            if wrap == "use-b" and shapes != "rect+rect":
+                continue
+            if tier == "quick" and (ta, tb) not in (("none", "translate"), ("translate", "none"), ("scale", "rotate"), ("matrix", "matrix"), ("none", "none"), ("rotate", "matrix"), ("mirror", "none"), ("translate", "mirror")):
+                continue
+            for coords in (["numbers"] if tier == "quick" else ["defaults", "numbers", "percent"]):
+                yield (kind, coords, units, gt, shapes, ta, tb, wrap)
+
+
 def all_cases(tier):
     kinds = ["linear", "radial"]
     coords = ["defaults", "numbers", "percent"]
     units = ["objectBoundingBox", "userSpaceOnUse"]
     gts = list(GT)
     if tier == "quick":
-        spreads, hrefs, foci, shapes, chains = ["pad", "reflect"], ["none", "attrs", "chain", "chain3", "chain3own", "partial", "partial-after", "chain-rev", "chain3-rev"], ["none", "fxfy", "fr", "fxpct"], ["rect", "path"], ["none", "translate", "rotscale", "groupmatrix"]
+        spreads, hrefs, foci, shapes, chains = ["pad", "reflect"], ["none", "attrs", "chain", "chain3", "chain3own", "partial", "partial-after", "chain-rev", "chain3-rev"], ["none", "fxfy", "fr", "fxpct"], ["rect", "path"], ["none", "translate", "rotscale", "groupmatrix", "mirror", "flipscale"]
     else:
         spreads, hrefs, foci, shapes, chains = ["pad", "reflect", "repeat"], ["none", "attrs", "stops", "chain", "chain3", "chain3own", "partial", "partial-after", "chain-rev", "chain3-rev"], list(FOCUS), list(SHAPES), list(CHAINS)
     for kind in kinds:
@@ -236,6 +311,8 @@ def corpus_for_c07(tier, seed):
 def cases(tier, seed):
     for k in all_cases(tier):
         yield {"k": list(k), "tier": tier, "seed": seed}
+    for k in shared_cases(tier):
+        yield {"fam": "s", "k": list(k), "tier": tier, "seed": seed}
 
 
 def run(run):
@@ -253,7 +330,7 @@ def run(run):
 
 
 def replay(case):
-    doc = case.get("doc") or document(*case["k"])
+    doc = case.get("doc") or (shared_document(*case["k"]) if case.get("fam") == "s" else document(*case["k"]))
     o, why, kind, span, st, out = judge(doc, "quick", 0)
     if why:
         return [{"sig": {"kind": kind}, "case": case, "detail": {"why": why, "output": out[:2500]}}]
